@@ -18,5 +18,7 @@ def run(ctx):
     ss.read_apis_merge_log(ctx, 'C15')
     ss.transaction_lifecycle(ctx, 'C15')
     ss.flags_exhaustive(ctx, 'C15')
+    ss.begin_has_no_side_effect(ctx, 'C15')
+    ss.merge_table(ctx, 'C15')
     from rules import c11
     c11.priority_rules(ctx, 'C15')
